@@ -13,12 +13,15 @@ EXPLANATION = (
     'tag post-passes run on every exit of the tag newline handler; (L5) single extraction pass, NUL-delimited placeholders spelled '
     "alike on both sides, restored on every return with the map extract produced; (L6) every text assembled from the splitter's "
     'tokens returns through denormalize_adjacent_tags; (L7) the separator normalize inserts must be reserved - it is a plain space: '
-    'recorded finding F-08; (L1) tokens are never sliced; tag/block spacing is forced before parsing. Not decided: whether a given '
+    'recorded finding F-08; (L1) tokens are never sliced; tag/block spacing is forced before parsing; the list / table heuristics '
+    'read a line only after its indentation is removed; no table of the wrapping layer that outlives a call is keyed by less than '
+    'what its values were computed from (R-MEMO). Not decided: whether a given '
     'construct instance is recognised at a given position of runtime text, overlap resolution between alternatives.'
 )
 
 
 def run(ctx: Ctx) -> None:
+    ctx.rule('R-MEMO', 'a value kept across calls (closure / module / instance table) is keyed by everything it was computed from')
     ctx.rule('R-ATOMIC-table', 'ATOMIC_PATTERNS / ATOMIC_CONSTRUCT_PATTERN agree, paired before single, DOTALL')
     ctx.rule('R-ATOMIC-delims', 'per-entry delimiter consistency')
     ctx.rule('R-ATOMIC-family', 'every construct family of the statement is matched as a whole by some entry')
@@ -31,12 +34,15 @@ def run(ctx: Ctx) -> None:
     ctx.rule('R-LOSSLESS-L3', 'last segment is flushed')
     ctx.rule('R-ATOMIC-pre', 'the tag/block spacing pre-pass carries no mode from line to line')
     ctx.rule('R-ATOMIC-cont', 'the multi-line tag fix tells a continuation line from a tag line by the tag openers alone (not by indentation)')
+    ctx.rule('R-ATOMIC-block', 'the list / table heuristics look at a line only after its indentation is removed (they run inside nested containers)')
     ctx.rule('R-PREPARSE', 'tag/block spacing is forced before parsing')
     ctx.run(atomic.check_tables)
     ctx.run(atomic.check_post_passes)
     ctx.run(atomic.check_preprocess_stateless)
     ctx.run(atomic.check_continuation_test)
+    ctx.run(atomic.check_block_heuristics_indent_free)
     ctx.run(wrap.check_placeholders)
     ctx.run(wrap.check_adjacency)
     ctx.run(wrap.check_word_placement)
     ctx.run(layout.check_parser_input)
+    ctx.run(wrap.check_wrapping_memos)
